@@ -277,6 +277,23 @@ Proof. intros fits wrap z. unfold refines, arith. destruct (fits z); auto. Qed.
 Fixpoint diff_list (last : Z) (l : list Z) : list Z :=
   match l with [] => [] | x :: t => (x - last) :: diff_list x t end.
 
+(* the step check walks one sequence: the step from the last element of a prefix to the
+   element that follows it is checked like any other (contour seams) *)
+Lemma last_cons_nonempty : forall {A} (l : list A) a d, List.last (a :: l) d = List.last l a.
+Proof.
+  intros A l. induction l as [|b t IH]; intros a d; [reflexivity|].
+  change (List.last (a :: b :: t) d) with (List.last (b :: t) d). rewrite (IH b d), (IH b a). reflexivity.
+Qed.
+
+Lemma diffs_fitb_seam : forall l1 x l2 last,
+  diffs_fitb last (l1 ++ x :: l2) = true -> fits_i16 (x - List.last l1 last) = true.
+Proof.
+  induction l1 as [|a l1 IH]; intros x l2 last H; cbn [app diffs_fitb] in H;
+    apply andb_true_iff in H; destruct H as [H1 H2].
+  - exact H1.
+  - rewrite last_cons_nonempty. exact (IH _ _ _ H2).
+Qed.
+
 Lemma undeltas_diff_list : forall l last, undeltas last (diff_list last l) = l.
 Proof.
   induction l as [|x t IH]; intros last; cbn; [reflexivity|].
